@@ -316,14 +316,14 @@ type viol struct{ sig, msg string }
 
 // outcome is the observable result class of a case (for counting distinct outcomes).
 type outcome struct {
-	ctor, cons          string
-	valid               bool
-	sizeRel             int8
-	final               string
-	r1, r2              string // result classes of the leaves
-	nTrue, nFalse       int8
-	backend             bool
-	delivered1, closes  int8
+	ctor, cons         string
+	valid              bool
+	sizeRel            int8
+	final              string
+	r1, r2             string // result classes of the leaves
+	nTrue, nFalse      int8
+	backend            bool
+	delivered1, closes int8
 }
 
 func (o outcome) String() string {
@@ -523,6 +523,12 @@ func runCase(c *Case, t *truth) (vs []viol, oc outcome) {
 			} else {
 				// Valid content, clean EOF: the property does not say
 				// which errors (e.g. unparsable Protobuf, size limit) may occur.
+				ok = true
+			}
+			if t.valid && r.kind == "ToProto" {
+				// Complete valid content followed by an I/O error instead
+				// of io.EOF may be treated as complete; the Protobuf
+				// parse error that follows is not judged.
 				ok = true
 			}
 			if !ok {
